@@ -793,6 +793,18 @@ func init() {
 				files = append(files, f)
 			}
 		}
+		// headers that end just below a power-of-two amount of input (64 KiB, 256 KiB, 1 MiB): a limit counted in
+		// bytes pulled from the source rather than bytes parsed depends on the segmentation
+		tables := realJPEGTables()
+		for _, T := range []int{1 << 16, 1 << 18, 1 << 20} {
+			for _, below := range []int{60, 1800, 3900} {
+				nch := (T + 65518) / 65519
+				sz := T - 900 - 18*nch - below
+				f := buildJPEG(rng, jpegOpt{w: 640, h: 480, precision: 8, ncomp: 3, nBefore: 1, nAfter: 0, icc: genProfile(rng, sz, false), chunkSize: 0, body: 9000, realTables: tables})
+				f.Name = fmt.Sprintf("jpeg-headers-end-%d-below-%d", below, T)
+				files = append(files, f)
+			}
+		}
 		for _, j := range junkInputs(c) {
 			b, _ := j[1].([]byte)
 			files = append(files, &mfile{Name: j[0].(string), Fmt: "auto", Data: b})
@@ -858,6 +870,14 @@ func init() {
 							w.res.fail(Failure{Seq: w.seq, Class: "C08:icc-reader", Desc: "ReadProfile outcome depends on read segmentation (schedule " + s.Name + fmt.Sprintf(", bufio size %d)", bs),
 								Input: map[string]interface{}{"profile": shortHex(p), "sched": s, "bufsize": bs}, Got: short(got, 200), Want: short(base, 200)})
 						}
+					}
+				}
+				for kind, kn := range []string{"*bytes.Reader positioned after a prefix", "*strings.Reader positioned after a prefix", "bufio over a SectionReader"} {
+					got := iccOutcomePositioned(p, kind)
+					w.res.count("icc-reader", kn+string(p), true)
+					if got != base {
+						w.res.fail(Failure{Seq: w.seq, Class: "C08:icc-reader", Desc: "ReadProfile outcome depends on the reader in front of the data (" + kn + ")",
+							Input: map[string]interface{}{"profile": shortHex(p), "reader": kn}, Got: short(got, 200), Want: short(base, 200)})
 					}
 				}
 				if w.runner != nil {
@@ -1272,13 +1292,43 @@ func firstDiff(a, b []byte) int {
 }
 
 // ReadProfile behind bufio.NewReaderSize(schedReader): canonical outcome incl. every tag's bytes
+// the same profile from readers that can also seek, positioned inside a larger object (an embedded profile)
+func iccOutcomePositioned(p []byte, kind int) (out string) {
+	pre := []byte("bytes of the enclosing file that precede the profile \x00\x00\x01\x00")
+	whole := append(append([]byte{}, pre...), p...)
+	var r interface {
+		io.Reader
+		io.ByteReader
+	}
+	switch kind {
+	case 0:
+		b := bytes.NewReader(whole)
+		b.Seek(int64(len(pre)), io.SeekStart)
+		r = b
+	case 1:
+		b := strings.NewReader(string(whole))
+		b.Seek(int64(len(pre)), io.SeekStart)
+		r = b
+	default:
+		r = bufio.NewReader(io.NewSectionReader(bytes.NewReader(append(whole, 1, 2, 3)), int64(len(pre)), int64(len(p))))
+	}
+	return iccOutcomeFrom(r, p)
+}
+
 func iccOutcome(p []byte, s sched, bufsize int) (out string) {
+	return iccOutcomeFrom(bufio.NewReaderSize(newSchedReader(p, s), bufsize), p)
+}
+
+func iccOutcomeFrom(r interface {
+	io.Reader
+	io.ByteReader
+}, p []byte) (out string) {
 	defer func() {
 		if r := recover(); r != nil {
 			out = "panic"
 		}
 	}()
-	prof, err := icc.NewProfileReader(bufio.NewReaderSize(newSchedReader(p, s), bufsize)).ReadProfile()
+	prof, err := icc.NewProfileReader(r).ReadProfile()
 	if err != nil {
 		return "err"
 	}
